@@ -908,12 +908,13 @@ Record spst := {
   sp_ever : list string;         (* every user path ever added successfully *)
   sp_known : gmap string N;      (* entry name ↦ inode: entries of watched directories that pre-existed or had their Create *)
   sp_pre : gset string;          (* the known names that pre-existed when their directory was added *)
-  sp_self : gmap string N;       (* cleaned user path ↦ inode it denoted (symlinks followed) when added *)
+  sp_self : gmap string (N * N); (* cleaned user path ↦ inode it denoted (symlinks followed) when added, inode of its parent directory *)
   sp_held : bool;
   sp_closed : bool;
+  sp_muted : gset string;        (* names the user took out of the reporting by a Remove that should have failed *)
 }.
 Definition sp_init : spst := {| sp_fs := fs_init; sp_user := []; sp_ever := []; sp_known := ∅; sp_pre := ∅; sp_self := ∅;
-                                sp_held := false; sp_closed := false |}.
+                                sp_held := false; sp_closed := false; sp_muted := ∅ |}.
 
 Definition str_in (x : string) (l : list string) : bool := existsb (String.eqb x) l.
 Definition ino_of (fs : fsst) (p : string) (follow : bool) : option N :=
@@ -935,19 +936,22 @@ Definition sp_event (sp : spst) (e : event) : spst * list viol :=
   let v_name := if str_in n bases || str_in (dir n) bases then [] else [("names-user-spelling", n)] in
   if has (e_op e) Create then
     let v := match sp_known sp !! n with
-             | Some _ => if bool_decide (n ∈ sp_pre sp) then [("preexisting-silent", n)] else [("create-once", n)]
+             | Some j =>
+                 (* a different file under the known name: the missing Remove was reported when the reader went idle *)
+                 if negb (N.eqb j (default j (ino_of (sp_fs sp) n false))) then []
+                 else if bool_decide (n ∈ sp_pre sp) then [("preexisting-silent", n)] else [("create-once", n)]
              | None => []
              end in
     ({| sp_fs := sp_fs sp; sp_user := sp_user sp; sp_ever := sp_ever sp;
         sp_known := <[ n := default 0 (ino_of (sp_fs sp) n false) ]> (sp_known sp);
-        sp_pre := sp_pre sp ∖ {[ n ]}; sp_self := sp_self sp; sp_held := sp_held sp; sp_closed := sp_closed sp |}, (v_name ++ v)%list)
+        sp_pre := sp_pre sp ∖ {[ n ]}; sp_self := sp_self sp; sp_held := sp_held sp; sp_closed := sp_closed sp; sp_muted := sp_muted sp |}, (v_name ++ v)%list)
   else if has (e_op e) Remove || has (e_op e) Rename then
     ({| sp_fs := sp_fs sp;
         sp_user := filter (fun p => negb (String.eqb (clean p) n)) (sp_user sp);
         sp_ever := sp_ever sp;
         sp_known := filter (fun kv : string * N => negb (String.eqb kv.1 n) && negb (String.eqb (dir kv.1) n)) (sp_known sp);
         sp_pre := sp_pre sp ∖ {[ n ]};
-        sp_self := delete n (sp_self sp); sp_held := sp_held sp; sp_closed := sp_closed sp |}, v_name)
+        sp_self := delete n (sp_self sp); sp_held := sp_held sp; sp_closed := sp_closed sp; sp_muted := sp_muted sp |}, v_name)
   else (sp, v_name).
 
 Fixpoint sp_events (sp : spst) (l : list event) : spst * list viol :=
@@ -962,12 +966,13 @@ Definition ev_with (l : list event) (n : string) (op : N) : bool :=
 (* names under which inode [i] is reported *)
 Definition names_of (sp : spst) (i : N) : list string :=
   (map fst (filter (fun kv : string * N => N.eqb kv.2 i) (map_to_list (sp_known sp)))
-   ++ map fst (filter (fun kv : string * N => N.eqb kv.2 i) (map_to_list (sp_self sp))))%list.
+   ++ map fst (filter (fun kv : string * (N * N) => N.eqb kv.2.1 i) (map_to_list (sp_self sp))))%list.
 
 Definition expect_change (sp : spst) (o : obs) (p : string) (follow : bool) (op : N) (what : string) : list viol :=
   match ino_of (sp_fs sp) p follow with
   | Some i => if is_file (kind_of (sp_fs sp) i)
-              then omap (fun n => if ev_with (ob_evs o) n op then None else Some ("change-missed", what ++ " " ++ n)) (names_of sp i)
+              then omap (fun n => if ev_with (ob_evs o) n op || bool_decide (n ∈ sp_muted sp) then None
+                                  else Some ("change-missed", what ++ " " ++ n)) (names_of sp i)
               else []
   | None => []
   end.
@@ -1015,30 +1020,46 @@ Definition sp_c17 (sp : spst) (x : step) (o : obs) : list viol :=
         | _ => omap (fun e : N * string * bool => if accounted sp e.1.2 then None else Some ("unaccounted-descriptor", e.1.2)) (ob_led o)
         end).
 
-(* clauses of C18 evaluated when the reader is idle *)
+(* clauses of C18 evaluated when the reader is idle; a watched path is only judged while its parent directory is
+   still the same directory (what happens to a watch whose ancestors are renamed is not C18's subject) *)
+Definition base_live (sp : spst) (base : string) : bool :=
+  match sp_self sp !! base with
+  | Some (i, _) => match ino_of (sp_fs sp) base true with Some j => N.eqb i j | None => false end
+  | None => false
+  end.
+
 Definition sp_c18_idle (sp : spst) : list viol :=
   if sp_held sp || sp_closed sp then [] else
   let fs := sp_fs sp in
-  (concat (map (fun bi : string * N =>
-                  if is_dir_path fs bi.1 then
+  (concat (map (fun bi : string * (N * N) =>
+                  if base_live sp bi.1 && is_dir_path fs bi.1 then
                     omap (fun ni : string * N =>
                             match sp_known sp !! ni.1 with
                             | None => Some ("create-missed", ni.1)
                             | Some j => if N.eqb j ni.2 then None else Some ("recreate", ni.1)
                             end) (entries_of fs bi.1)
                   else []) (map_to_list (sp_self sp))))
-  ++ omap (fun ni : string * N => match ino_of fs ni.1 false with
-                                  | Some j => if N.eqb j ni.2 then None else Some ("remove-missed", ni.1)
-                                  | None => Some ("remove-missed", ni.1)
-                                  end) (map_to_list (sp_known sp))
-  ++ omap (fun bi : string * N => match ino_of fs bi.1 true with
-                                  | Some j => if N.eqb j bi.2 then None else Some ("remove-missed", bi.1)
-                                  | None => Some ("remove-missed", bi.1)
-                                  end) (map_to_list (sp_self sp)).
+  ++ omap (fun ni : string * N =>
+             if base_live sp (dir ni.1) then
+               match ino_of fs ni.1 false with
+               | Some j => if N.eqb j ni.2 then None else None (* reported as recreate above *)
+               | None => Some ("remove-missed", ni.1)
+               end
+             else None) (map_to_list (sp_known sp))
+  ++ omap (fun bi : string * (N * N) =>
+             match ino_of fs (dir bi.1) true with
+             | Some pi => if N.eqb pi bi.2.2 then
+                            match ino_of fs bi.1 true with
+                            | Some j => if N.eqb j bi.2.1 then None else Some ("remove-missed", bi.1)
+                            | None => Some ("remove-missed", bi.1)
+                            end
+                          else None
+             | None => None
+             end) (map_to_list (sp_self sp)).
 
 Definition sp_set_fs (sp : spst) (fs : fsst) : spst :=
   {| sp_fs := fs; sp_user := sp_user sp; sp_ever := sp_ever sp; sp_known := sp_known sp; sp_pre := sp_pre sp;
-     sp_self := sp_self sp; sp_held := sp_held sp; sp_closed := sp_closed sp |}.
+     sp_self := sp_self sp; sp_held := sp_held sp; sp_closed := sp_closed sp; sp_muted := sp_muted sp |}.
 
 Definition spec_step (sp : spst) (x : step) (o : obs) : spst * list viol :=
   (* expectations that refer to the state before the step *)
@@ -1055,11 +1076,11 @@ Definition spec_step (sp : spst) (x : step) (o : obs) : spst * list viol :=
     match x with
     | SFs op => if ob_ok o then match fs_apply (sp_fs sp) op with Some (fs', _) => sp_set_fs sp fs' | None => sp end else sp
     | SHold => {| sp_fs := sp_fs sp; sp_user := sp_user sp; sp_ever := sp_ever sp; sp_known := sp_known sp; sp_pre := sp_pre sp;
-                  sp_self := sp_self sp; sp_held := true; sp_closed := sp_closed sp |}
+                  sp_self := sp_self sp; sp_held := true; sp_closed := sp_closed sp; sp_muted := sp_muted sp |}
     | SRelease => {| sp_fs := sp_fs sp; sp_user := sp_user sp; sp_ever := sp_ever sp; sp_known := sp_known sp; sp_pre := sp_pre sp;
-                     sp_self := sp_self sp; sp_held := false; sp_closed := sp_closed sp |}
+                     sp_self := sp_self sp; sp_held := false; sp_closed := sp_closed sp; sp_muted := sp_muted sp |}
     | SClose => {| sp_fs := sp_fs sp; sp_user := []; sp_ever := sp_ever sp; sp_known := ∅; sp_pre := ∅;
-                   sp_self := ∅; sp_held := false; sp_closed := true |}
+                   sp_self := ∅; sp_held := false; sp_closed := true; sp_muted := sp_muted sp |}
     | _ => sp
     end in
   (* 2. the events delivered during the step (for SClose: the ones delivered before Close took effect are still checked) *)
@@ -1071,30 +1092,39 @@ Definition spec_step (sp : spst) (x : step) (o : obs) : spst * list viol :=
         if ob_ok o && negb (sp_closed sp2) then
           let base := clean p in
           let fs := sp_fs sp2 in
-          let ents := if is_dir_path fs base then filter (fun ni : string * N => negb (bool_decide (is_Some (sp_known sp2 !! ni.1)))) (entries_of fs base) else [] in
+          let ents := if is_dir_path fs base && negb (bool_decide (is_Some (sp_self sp2 !! base))) then filter (fun ni : string * N => negb (bool_decide (is_Some (sp_known sp2 !! ni.1)))) (entries_of fs base) else [] in
           {| sp_fs := fs;
              sp_user := if str_in p (sp_user sp2) then sp_user sp2 else (p :: sp_user sp2);
              sp_ever := if str_in p (sp_ever sp2) then sp_ever sp2 else (p :: sp_ever sp2);
              sp_known := fold_left (fun m (ni : string * N) => <[ ni.1 := ni.2 ]> m) ents (sp_known sp2);
              sp_pre := fold_left (fun m (ni : string * N) => {[ ni.1 ]} ∪ m) ents (sp_pre sp2);
              sp_self := match ino_of fs base true with
-                        | Some i => if is_fifo (kind_of fs i) then sp_self sp2 else <[ base := i ]> (sp_self sp2)
+                        | Some i => if is_fifo (kind_of fs i) then sp_self sp2
+                                    else <[ base := (i, default 0 (ino_of fs (dir base) true)) ]> (sp_self sp2)
                         | None => sp_self sp2 end;
-             sp_held := sp_held sp2; sp_closed := sp_closed sp2 |}
+             sp_held := sp_held sp2; sp_closed := sp_closed sp2; sp_muted := sp_muted sp2 |}
         else sp2
     | SRemove p =>
         if ob_ok o && negb (sp_closed sp2) then
           let base := clean p in
           let user' := filter (fun q => negb (String.eqb (clean q) base)) (sp_user sp2) in
           {| sp_fs := sp_fs sp2; sp_user := user'; sp_ever := sp_ever sp2;
+             (* a Remove that succeeds on an entry the user never added takes that entry out of the reporting (sp_muted) *)
              sp_known := filter (fun kv : string * N => negb (String.eqb (dir kv.1) base)) (sp_known sp2);
              sp_pre := sp_pre sp2;
-             sp_self := delete base (sp_self sp2); sp_held := sp_held sp2; sp_closed := sp_closed sp2 |}
+             sp_self := delete base (sp_self sp2); sp_held := sp_held sp2; sp_closed := sp_closed sp2;
+             sp_muted := if str_in base (map clean (sp_user sp2)) then sp_muted sp2 else {[ base ]} ∪ sp_muted sp2 |}
         else sp2
     | _ => sp2
     end in
   (* an entry that is itself a live user watch stays known through the removal of its directory: not needed by any clause *)
-  (sp3, (pre_v ++ v_ev ++ sp_c17 sp3 x o ++ sp_c18_idle sp3)%list).
+  let v_rm := match x with
+              | SRemove p => if ob_ok o && negb (sp_closed sp2) && negb (str_in (clean p) (map clean (sp_user sp2)))
+                             then [("remove-of-unadded-succeeds", p)] else []
+              | _ => []
+              end in
+  let unmuted := filter (fun v : viol => negb (bool_decide (v.2 ∈ sp_muted sp3))) in
+  (sp3, (pre_v ++ unmuted v_ev ++ v_rm ++ sp_c17 sp3 x o ++ unmuted (sp_c18_idle sp3))%list).
 
 (* the whole specification over a recorded (or predicted) trace *)
 Fixpoint spec_trace (sp : spst) (n : nat) (tr : list (step * obs)) : list (nat * viol) :=
